@@ -791,7 +791,8 @@ package vnet
 //@ property C03: networkAddressTranslator.translateInbound, networkAddressTranslator.removeMapping
 //@ property C14: chunkQueue.push, chunkQueue.pop, chunkQueue.peek, DelayFilter.onInboundChunk, DelayFilter.Run, Router.push, Router.processChunks, Router.AddChunkFilter
 //@ property C15: TokenBucketFilter.refillTokens, TokenBucketFilter.drainQueue, TokenBucketFilter.run, TokenBucketFilter.onInboundChunk, chunkQueue.push, chunkQueue.pop, chunkQueue.peek
-//@ property C01: chunkUDP.SourceAddr, chunkUDP.DestinationAddr, chunkUDP.UserData, chunkUDP.Network, chunkUDP.Clone, chunkUDP.setSourceAddr, chunkUDP.setDestinationAddr, Router.processChunks, Router.push, Router.onInboundChunk, Net.write, Net.onInboundChunk, UDPConn.WriteTo, UDPConn.ReadFrom, UDPConn.onInboundChunk, chunkQueue.push, chunkQueue.pop, chunkQueue.peek, udpConnMap.find
+// (UDPConn.Close belongs to C01 as well: a refused second Close must not unbind the address a successor socket holds)
+//@ property C01: chunkUDP.SourceAddr, chunkUDP.DestinationAddr, chunkUDP.UserData, chunkUDP.Network, chunkUDP.Clone, chunkUDP.setSourceAddr, chunkUDP.setDestinationAddr, Router.processChunks, Router.push, Router.onInboundChunk, Net.write, Net.onInboundChunk, UDPConn.WriteTo, UDPConn.ReadFrom, UDPConn.onInboundChunk, chunkQueue.push, chunkQueue.pop, chunkQueue.peek, udpConnMap.find, UDPConn.Close
 //@ property C13: Router.assignIPAddress, Router.addNIC, udpConnMap.insert, udpConnMap.find, udpConnMap.delete, newUDPConn, UDPConn.onInboundChunk, UDPConn.Close, Net.onInboundChunk, Net.onClosed, Net.allocateLocalAddr, Net.assignPort, Net._dialUDP
 //@ property C10: newUDPConn, UDPConn.ReadFrom, UDPConn.Read, UDPConn.SetReadDeadline, UDPConn.SetDeadline
 //@ property C16: NewLossFilter, LossFilter.onInboundChunk
